@@ -98,6 +98,12 @@ def cases_perturb(tier):
         for types in itertools.product((NONE, TRUNC, MIRROR), repeat=min(N, 2)):
             types = list(types) + [MIRROR] * (N - len(types))
             yield "R%dP%dN%d/%s/one-sampler" % (R, P, N, "".join(map(str, types))), {"R": R, "P": P, "N": N, "types": types, "samplers": None}
+        # finite / infinite bounds on either side (the bounds reach _apply_bounds only through this function)
+        for lbk in ("fin", "-inf"):
+            for ubk in ("fin", "+inf"):
+                if (lbk, ubk) != ("fin", "fin"):
+                    for t in (NONE, TRUNC, MIRROR):
+                        yield "R%dP%dN%d/%d/%s/%s" % (R, P, N, t, lbk, ubk), {"R": R, "P": P, "N": N, "types": [t] * N, "samplers": None, "lbk": [lbk] * N, "ubk": [ubk] + ["fin"] * (N - 1)}
         if N >= 2:
             # two samplers on disjoint variables, listed in the order 1, 0 (first appearance decides the order)
             yield "R%dP%dN%d/two-samplers" % (R, P, N), {"R": R, "P": P, "N": N, "types": [TRUNC] * N, "samplers": [1] + [0] * (N - 1)}
@@ -107,8 +113,8 @@ def scn_perturb(T, case):
     R, P, N = case["R"], case["P"], case["N"]
     f = T.func("ropt.ensemble_evaluator._gradient", "_perturb_variables")
     x = T.real("x", (N,))
-    lb = T.real("lb", (N,))
-    ub = T.real("ub", (N,))
+    lb = T.real("lb", (N,), kinds=np.array(case["lbk"], dtype=object) if "lbk" in case else None)
+    ub = T.real("ub", (N,), kinds=np.array(case["ubk"], dtype=object) if "ubk" in case else None)
     mag = T.real("mag", (N,))
     T.assume(T.all(lb <= ub))
     T.assume(T.all((lb <= x) & (x <= ub)))
